@@ -12,9 +12,12 @@ import (
 	"encoding/json"
 	"errors"
 	"fmt"
+	"io"
 	"net/http"
+	"strings"
 	"testing"
 	"testing/synctest"
+	"time"
 
 	"github.com/modelcontextprotocol/go-sdk/internal/verifx"
 	"github.com/modelcontextprotocol/go-sdk/jsonrpc"
@@ -82,6 +85,171 @@ func c02ErrorCase(transport string, code int64, notifyFirst bool) (obs, sig, msg
 	return fmt.Sprintf("intact progress=%d", progress), "", ""
 }
 
+// c02WriteFailCase: one HTTP exchange of a streamable session fails at the I/O level while its POST is
+// still attached (an expired write deadline, a proxy gone away): writing the response of that one call
+// fails.  That costs at most that one response: the call in flight on a healthy exchange and every
+// later call are still answered exactly once, and the session stays up.  The peer is a raw HTTP
+// client (what the SDK's own client makes of a broken body is its business, not the server's).
+func c02WriteFailCase(mode string, store bool, order string, failFrom string) (obs, sig, msg string) {
+	desc := fmt.Sprintf("mode=%s event-store=%v released=%s writes-fail=%s", mode, store, order, failFrom)
+	var hx *hxTransport
+	fail := func(s, format string, a ...any) (string, string, string) {
+		trace := ""
+		if hx != nil {
+			for _, x := range hx.exchanges() {
+				trace += fmt.Sprintf("\n    #%d %s %.90s -> %d %.90q", x.N, x.Method, x.ReqBody, x.Status, x.Body())
+			}
+		}
+		return "", "c02 response-write-fails " + s, fmt.Sprintf(format, a...) + " [" + desc + "]" + trace
+	}
+	gates := map[string]chan struct{}{"a": make(chan struct{}), "b": make(chan struct{})}
+	started := 0
+	s := NewServer(&Implementation{Name: "srv", Version: "1"}, &ServerOptions{Logger: quietLogger})
+	AddTool(s, &Tool{Name: "wait"}, func(ctx context.Context, r *CallToolRequest, in struct {
+		Gate string `json:"gate"`
+	}) (*CallToolResult, any, error) {
+		if g := gates[in.Gate]; g != nil {
+			started++
+			<-g // deliberately not watching ctx: the answer is computed regardless
+		}
+		return &CallToolResult{Content: []Content{&TextContent{Text: "done " + in.Gate}}}, nil, nil
+	})
+	opts := &StreamableHTTPOptions{Logger: quietLogger, JSONResponse: mode == "json"}
+	if store {
+		opts.EventStore = NewMemoryEventStore(nil)
+	}
+	hx = &hxTransport{Handler: NewStreamableHTTPHandler(func(*http.Request) *Server { return s }, opts)}
+	broken := false
+	hx.WriteFault = func(x *hxExchange) error {
+		if !strings.Contains(string(x.ReqBody), `"gate":"a"`) {
+			return nil
+		}
+		if failFrom == "first-write" || broken {
+			return errors.New("write tcp 10.0.0.1:8080->10.0.0.2:4242: i/o timeout")
+		}
+		return nil
+	}
+	sid := ""
+	// do sends one request and returns the status and everything that could be read of the body
+	do := func(method, body, lastEventID string) (int, string) {
+		req, _ := http.NewRequest(method, "http://srv.test/mcp", strings.NewReader(body))
+		req.Header.Set("Content-Type", "application/json")
+		req.Header.Set("Accept", "application/json, text/event-stream")
+		if sid != "" {
+			req.Header.Set("Mcp-Session-Id", sid)
+			req.Header.Set("Mcp-Protocol-Version", "2025-06-18")
+		}
+		if lastEventID != "" {
+			req.Header.Set("Last-Event-ID", lastEventID)
+		}
+		resp, err := hx.client().Do(req)
+		if err != nil {
+			return 0, err.Error()
+		}
+		defer resp.Body.Close()
+		if id := resp.Header.Get("Mcp-Session-Id"); id != "" {
+			sid = id
+		}
+		data, _ := io.ReadAll(resp.Body)
+		return resp.StatusCode, string(data)
+	}
+	// responses counts the JSON-RPC responses bearing the id in a body (SSE events or a JSON document)
+	responses := func(body string, id int) int {
+		n := 0
+		for _, line := range strings.Split(body, "\n") {
+			line = strings.TrimSpace(strings.TrimPrefix(line, "data:"))
+			var m struct {
+				ID     *int            `json:"id"`
+				Method string          `json:"method"`
+				Result json.RawMessage `json:"result"`
+				Error  json.RawMessage `json:"error"`
+			}
+			if json.Unmarshal([]byte(line), &m) == nil && m.ID != nil && *m.ID == id && m.Method == "" && (m.Result != nil || m.Error != nil) {
+				n++
+			}
+		}
+		return n
+	}
+	if st, body := do("POST", `{"jsonrpc":"2.0","id":1,"method":"initialize","params":{"protocolVersion":"2025-06-18","capabilities":{},"clientInfo":{"name":"c","version":"1"}}}`, ""); st != 200 || responses(body, 1) != 1 || sid == "" {
+		return fail("setup", "initialize: %d %q", st, body)
+	}
+	if st, body := do("POST", `{"jsonrpc":"2.0","method":"notifications/initialized"}`, ""); st != 202 {
+		return fail("setup", "initialized: %d %q", st, body)
+	}
+	var ss *ServerSession
+	for x := range s.Sessions() {
+		ss = x
+	}
+	if ss == nil {
+		return fail("setup", "no server session")
+	}
+	ended := false
+	go func() { ss.Wait(); ended = true }()
+	type outcome struct {
+		status int
+		body   string
+		done   bool
+	}
+	var ra, rb outcome
+	call := func(id int, g string, o *outcome) {
+		o.status, o.body = do("POST", fmt.Sprintf(`{"jsonrpc":"2.0","id":%d,"method":"tools/call","params":{"name":"wait","arguments":{"gate":"%s"}}}`, id, g), "")
+		o.done = true
+	}
+	go call(2, "a", &ra)
+	go call(3, "b", &rb)
+	synctest.Wait()
+	if started != 2 {
+		return fail("setup", "%d of the two handlers started", started)
+	}
+	broken = true // from now on the writes of a's exchange fail; its request and context live on
+	for _, g := range strings.Split(order, ",") {
+		close(gates[g])
+		synctest.Wait()
+	}
+	time.Sleep(2 * time.Minute)
+	synctest.Wait()
+	switch {
+	case !rb.done:
+		return fail("healthy-exchange-never-ends", "the exchange of the call on the healthy connection is still open two minutes after its handler returned (the other one: done=%v)", ra.done)
+	case rb.status != 200 || responses(rb.body, 3) != 1:
+		return fail("healthy-call-not-answered-once", "the response write of ANOTHER exchange failed; the call on the healthy exchange got status %d with %d responses: %.200q", rb.status, responses(rb.body, 3), rb.body)
+	case !strings.Contains(rb.body, "done b"):
+		return fail("healthy-call-wrong-answer", "the call on the healthy exchange got %.200q", rb.body)
+	case !ra.done:
+		return fail("failed-exchange-never-ends", "the exchange whose response could not be written is still open two minutes later")
+	case responses(ra.body, 2) > 0:
+		return fail("harness", "the failing exchange delivered a response: %.200q", ra.body)
+	case ended:
+		return fail("session-torn-down", "one failed response write ended the whole server session")
+	}
+	// with an event store and an event id seen on the failed exchange, the response is still to be had - once
+	recovered := "lost"
+	if store && mode == "sse" {
+		lastID := ""
+		for _, line := range strings.Split(ra.body, "\n") {
+			if v, ok := strings.CutPrefix(line, "id: "); ok {
+				lastID = strings.TrimSpace(v)
+			}
+		}
+		if lastID != "" {
+			st, body := do("GET", "", lastID)
+			if n := responses(body, 2); st != 200 || n != 1 {
+				return fail("stored-response-not-replayed-once", "the response whose write failed was stored; resuming after event %q gave status %d with %d responses: %.200q", lastID, st, n, body)
+			}
+			recovered = "replayed"
+		}
+	}
+	if st, body := do("POST", `{"jsonrpc":"2.0","id":4,"method":"tools/call","params":{"name":"wait","arguments":{"gate":"none"}}}`, ""); st != 200 || responses(body, 4) != 1 || !strings.Contains(body, "done none") {
+		return fail("later-call-not-answered-once", "a call made after the failed write got status %d with %d responses: %.200q", st, responses(body, 4), body)
+	}
+	if ended {
+		return fail("session-torn-down", "the session ended after the failed write")
+	}
+	ss.Close()
+	synctest.Wait()
+	return "a-" + recovered, "", ""
+}
+
 func TestVerifC02Errors(t *testing.T) {
 	env := verifx.LoadEnv("C02")
 	res := env.NewResult()
@@ -109,6 +277,35 @@ func TestVerifC02Errors(t *testing.T) {
 				cases.Record(idx, transport+" "+obs, 3, func() string {
 					return fmt.Sprintf("transport=%s code=%d notifyFirst=%v", transport, code, notifyFirst)
 				})
+			}
+		}
+	}
+	wf := env.NewCases(res, "error-responses-write-failure")
+	for _, mode := range []string{"sse", "json"} {
+		for _, store := range []bool{false, true} {
+			for _, order := range []string{"a,b", "b,a"} {
+				for _, failFrom := range []string{"first-write", "once-in-flight"} {
+					idx, mine := wf.Next()
+					if !mine {
+						continue
+					}
+					var obs, sig, msg string
+					func() {
+						defer func() {
+							if r := recover(); r != nil {
+								sig, msg = "c02 response-write-fails panic-or-leak", fmt.Sprintf("%v [mode=%s store=%v order=%s fail=%s]", r, mode, store, order, failFrom)
+							}
+						}()
+						synctest.Test(t, func(t *testing.T) { obs, sig, msg = c02WriteFailCase(mode, store, order, failFrom) })
+					}()
+					if sig != "" {
+						wf.Violate(idx, sig, msg, 4)
+						continue
+					}
+					wf.Record(idx, mode+" "+obs, 4, func() string {
+						return fmt.Sprintf("mode=%s event-store=%v released=%s writes-fail=%s", mode, store, order, failFrom)
+					})
+				}
 			}
 		}
 	}
